@@ -285,12 +285,13 @@ def _history(case, work, rng, nops):
         ctx = "after [%s] (step %d, op %s): model says %s%s; rc=%s stderr tail: %s" % (
             ",".join(seq[: step + 1]), step, applied, exp, (" at " + efile) if efile else "", rc, se.strip()[-300:])
         b = case["backend"]
-        if exp == "ok" and rc != 0:
-            # Is the reported file one the generator does not reproduce byte for byte (C15's business)?  Regenerate a few
-            # times into a scratch directory; if its bytes ever differ from the first generation it is unstable.
-            mm = re.search(r"not up to date: (.*)", se)
-            rel = os.path.relpath(mm.group(1).strip(), out) if mm else None
-            if rel in model.want and rel not in model.unstable and model.cur.get(rel) == model.want[rel]:
+        mm = re.search(r"not up to date: (.*)", se) if rc not in (0, None) else None
+        if mm and exp in ("ok", "crlf"):
+            # The model expected success (or a pure line-ending difference) but a file is reported stale.  Is it one the
+            # generator does not reproduce byte for byte (C15's business)?  Regenerate a few times into a scratch
+            # directory; if its bytes ever differ from the first generation it is unstable.
+            rel = os.path.relpath(mm.group(1).strip(), out)
+            if rel in model.want and rel not in model.unstable:
                 probe = os.path.join(work, "probe")
                 pbase = [case["backend"], case["src"], "--out-dir", probe] + base[4:]
                 for _ in range(10):
@@ -439,6 +440,8 @@ def run(tier, seed, replay):
                     if not res["violations"]:
                         continue
                 stats["histories"] += 1
+                if res.get("unstable_found_late"):
+                    stats["unstable_files_found_late"] = stats.get("unstable_files_found_late", 0) + res["unstable_found_late"]
                 if res.get("unstable_files"):
                     stats["histories_with_unstable_files"] = stats.get("histories_with_unstable_files", 0) + 1
                 pb["histories"] += 1
